@@ -8,13 +8,14 @@ class GenProblem(Problem):
     g_k(x) = b_k . x - t_k (inequality <= 0), h_k(x) = e_k . x - s_k (equality)."""
 
     def __init__(self, n_var, n_obj=1, n_ieq=0, n_eq=0, xl=None, xu=None, seed=0, grid=None, shift=0.0, fscale=None,
-                 special=None, declared=None):
+                 special=None, declared=None, vtype=None):
         # `declared`: the box the problem announces (a narrower one than the box the functions were built from: the same
         # functions on a smaller search space, for warm starts from an earlier, wider run)
         dxl, dxu = (xl, xu) if declared is None else declared
+        kw_ = {} if vtype is None else {"vtype": vtype}       # (variables declared as integers: pymoode itself never rounds)
         super().__init__(n_var=n_var, n_obj=n_obj, n_ieq_constr=n_ieq, n_eq_constr=n_eq,
                          xl=None if dxl is None else np.array(dxl, dtype=float),
-                         xu=None if dxu is None else np.array(dxu, dtype=float))
+                         xu=None if dxu is None else np.array(dxu, dtype=float), **kw_)
         # `special`: 'posinf' / 'neginf' / 'nan' / 'mixinf' - one objective is not a finite number on part of the box
         # (a barrier, an undefined region, a failed simulation)
         self.special = special
